@@ -127,6 +127,9 @@ def run(ctx, rep):
                     if name == 'empty' and fv[0] == 'call' and fv[1] in ('std::vec::Vec::<T>::new',):
                         dflt = 'std::default::Default::default'
                 ok = k.required is False and dflt in T['defaults'][name] and default_value_ok(prog, sl, name, dflt)
+                if not ok and k.required is False and (k.default or '').startswith('container:') and fv[0] == 'agg':
+                    # the container's Default impl spells the field's value out
+                    ok = {'linux': 'Linux', 'app': 'App'}.get(name) == fv[2]
                 rep.check(ok, 'R2', subj, where, 'optional, default %s' % name,
                           'key %s must be optional with default %s: required=%s default=%s' % (key, name, k.required, k.default))
             elif spec == 'g':
